@@ -9,6 +9,7 @@ package main
 
 import (
 	"bufio"
+	"bytes"
 	"context"
 	"crypto/tls"
 	"fmt"
@@ -90,6 +91,18 @@ func (b *backend) serve(c net.Conn) {
 	tag := strings.TrimSpace(strings.TrimPrefix(line, "TAG:"))
 	b.note(tag, c)
 	fmt.Fprintf(c, "EP:%s:%s\n", b.name, tag)
+	// a bulk stream that belongs to this connection only
+	if t, err := strconv.Atoi(tag); err == nil {
+		c.SetWriteDeadline(time.Now().Add(30 * time.Second))
+		c.Write(streamOf(t))
+	}
+}
+
+const streamLen = 160000
+
+// streamOf is the pseudo-random byte stream a backend sends to the connection with this tag.
+func streamOf(tag int) []byte {
+	return hx.NewRand(uint64(tag)*7919 + 13).Bytes(streamLen)
 }
 
 func (b *backend) note(tag string, c net.Conn) {
@@ -191,6 +204,7 @@ func runE2E(op string, rep *hx.Report) (lines, impl []string, skipped string) {
 		conns = append(conns, conn{tag: i, sni: s})
 	}
 	results := make([]string, len(conns))
+	bulkBad := make([]string, len(conns))
 	locals := make([]string, len(conns))
 	var wg sync.WaitGroup
 	for i := range conns {
@@ -212,7 +226,8 @@ func runE2E(op string, rep *hx.Report) (lines, impl []string, skipped string) {
 			c.Write(h)
 			fmt.Fprintf(c, "TAG:%d\n", conns[i].tag)
 			c.SetReadDeadline(time.Now().Add(20 * time.Second))
-			line, err := bufio.NewReader(c).ReadString('\n')
+			br := bufio.NewReaderSize(c, 1<<16)
+			line, err := br.ReadString('\n')
 			if err != nil {
 				if ne, ok := err.(net.Error); ok && ne.Timeout() {
 					results[i] = "timeout"
@@ -222,6 +237,19 @@ func runE2E(op string, rep *hx.Report) (lines, impl []string, skipped string) {
 				return
 			}
 			results[i] = strings.TrimSpace(line)
+			// the bulk stream that follows must be this connection's own
+			want := streamOf(conns[i].tag)
+			got := make([]byte, len(want))
+			n, _ := io.ReadFull(br, got)
+			if !bytes.Equal(got[:n], want[:n]) {
+				k := 0
+				for k < n && got[k] == want[k] {
+					k++
+				}
+				bulkBad[i] = fmt.Sprintf("bytes of another stream at offset %d of its %d-byte bulk stream", k, len(want))
+			} else if n < len(want) {
+				bulkBad[i] = fmt.Sprintf("only %d of %d bulk bytes arrived", n, len(want))
+			}
 		}(i, h)
 	}
 	hx.WithTimeout(60*time.Second, wg.Wait)
@@ -263,6 +291,9 @@ func runE2E(op string, rep *hx.Report) (lines, impl []string, skipped string) {
 			got = fmt.Sprintf("endpoint %d", epIdx["ep"+p[1]])
 			if p[2] != strconv.Itoa(c.tag) {
 				rep.Fail("foreign-bytes:"+mode, fmt.Sprintf("connection %d (sni %q) received the reply to tag %s", c.tag, c.sni, p[2]), []string{op})
+			}
+			if bulkBad[i] != "" {
+				rep.Fail("foreign-bytes:"+mode, fmt.Sprintf("connection %d (sni %q), one of %d concurrent connections, received %s", c.tag, c.sni, len(conns), bulkBad[i]), []string{op})
 			}
 		case results[i] == "timeout":
 			got = "timeout"
